@@ -254,7 +254,7 @@ def c11_6(ctx, ss):
 def c11_7(ctx, ss):
     ff, flow = fn(ss, DECAY, "_build_decay_modes")
     stores = [s for s in pf.iter_stmts(ff.node.body) if isinstance(s, ast.Assign) and isinstance(s.targets[0], ast.Subscript)
-              and txt(s.targets[0].value) != "decay_modes"]
+              and txt(s.targets[0].value) != ff.params[0]]
     k = ckey(ff, None, "reader-positions")
     if len(stores) != 1:
         raise AnchorMissing("_build_decay_modes: expected one positional replacement")
@@ -267,13 +267,14 @@ def c11_7(ctx, ss):
         rec = [c for c in pf.calls_in(lp) if txt(c.func) == "_build_decay_modes"]
         conds = [(txt(e), pol) for kind, e, pol in guards.path_conditions(lp, st) if kind == "if"]
         ok = txt(st.targets[0].slice) == idx and txt(st.targets[0].value) == txt(lp.iter.args[0]) and txt(st.value) in (f"next(iter({el}.keys()))", f"next(iter({el}))") \
-            and conds == [(f"isinstance({el}, dict)", True)] and len(rec) == 1 and txt(rec[0].args[0]) == "decay_modes" \
+            and conds == [(f"isinstance({el}, dict)", True)] and len(rec) == 1 and txt(rec[0].args[0]) == ff.params[0] \
             and txt(rec[0].args[1]).endswith(f"[{idx}]") and not any(isinstance(x, (ast.Break, ast.Continue)) for x in ast.walk(lp))
     (ctx.holds if ok else ctx.violation)("C11.7", k, where(ff, st),
                                           "each nested dictionary is replaced by its key at its own position and the reader recurses into that element" if ok
                                           else "the reader does not replace / recurse position by position")
     # both branches build the mode through DecayMode.from_dict
-    sets = [s for s in pf.iter_stmts(ff.node.body) if isinstance(s, ast.Assign) and txt(s.targets[0]) == "decay_modes[mother]"]
+    sets = [s for s in pf.iter_stmts(ff.node.body) if isinstance(s, ast.Assign) and isinstance(s.targets[0], ast.Subscript)
+            and txt(s.targets[0].value) == ff.params[0]]
     vals = [a for s in sets for a in phi_alts(flow.expand(s.value))]
     okb = len(vals) == 2 and all(isinstance(v, ast.Call) and txt(v.func) == "DecayMode.from_dict" for v in vals)
     (ctx.holds if okb else ctx.violation)("C11.7", ckey(ff, None, "reader-modes"), where(ff, ff.node),
